@@ -9,7 +9,7 @@ names=args or sorted(os.listdir('/verif/refactorings'))
 tot=0
 for n in names:
     c=subprocess.run(['python3','/verif/tools/seedcheck.py','/verif/refactorings/%s/patch.diff'%n]+props,capture_output=True,text=True)
-    lines=[l for l in c.stdout.splitlines() if l[:1]=='C' or 'NOT' in l or 'COMPILE' in l]
+    lines=[l for l in c.stdout.splitlines() if l[:1]=='C' or 'NOT' in l or 'COMPILE' in l or 'CRASHED' in l]
     tot+=len(lines)
     print("== %s: %d false alarm(s)"%(n,len(lines)))
     for l in lines: print("   "+l[:200])
